@@ -1,11 +1,18 @@
 """C15 - the intermediate spanner is a weighted (2k-1)-spanner of girth > 2k."""
 from lib import engine
+from lib.core import tier
+from units import k17_spanner
 from . import common
 
-LEVEL = "exploration"
+LEVEL = "other"
 KINDS = {"spanner-vertices", "spanner-untranslated", "spanner-foreign", "spanner-endpoints", "spanner-weight",
          "spanner-partition", "spanner-translation-size", "spanner-stretch", "spanner-girth", "crash"}
 EXPLANATION = (
+    "PROVED by CBMC (DFCC, loop contract with a ghost position, modular against the contract of is_bfs_reachable - any "
+    "answer, but the caller owes it distinct endpoints and the hop bound 2k-1): the edge loop of construct_spanner puts "
+    "every input edge, in sorted order, EITHER into the spanner - with the mapped endpoints, the INPUT edge's weight and a "
+    "translation entry back to it - OR into the dropped list, never both, and adds nothing else (K17a; table cap m<=12, "
+    "thorough 32).  What depends on the ANSWERS of is_bfs_reachable (stretch, girth) is only bounded: "
     "Contract K17, observed through the guarded read-only accessors (hook H1, PARMCB_VERIF): same vertex count; "
     "every spanner edge translates to an input edge with the same endpoints and the same weight; retained and "
     "dropped edges partition E; every dropped edge (u,v) has a u-v path of <= 2k-1 retained edges none heavier "
@@ -17,6 +24,7 @@ EXPLANATION = (
 
 
 def run(rep):
+    engine.run_units(rep, [u for u in k17_spanner.units(tier()) if u.get("unit", "").startswith("K17a")])
     common.native_filtered(rep, "e3_approx", KINDS, driver="e3_approx[spanner]", args=["--only", "spanner"],
                            functions={"BaseApproxSpannerAlgorithm::construct_spanner": "bounded", "is_bfs_reachable": "bounded"},
                            assumptions=["hook H1 accessors return the private members unchanged"],
